@@ -157,6 +157,46 @@ def run(ctx, ck):
     ck.rule('R-SYM.ground-halves', 'statements selecting one half of the ground flags select the other too')
     nsel, nst = check_ground_symmetry(ctx, ck)
     ck.floor('statements selecting a half of the ground flags', nst, 3)
+    # reduced kernel: the radius enters the distance of every thick element, whatever the rest of the batch needs
+    ck.rule('R-DEP.reduced-kernel', 'whether the radius term is added to the distance does not depend on the exact-kernel flags')
+    ki = m.func('mininec.Mininec.integral_i2_i3')
+    kfl = ctx.flow(ki)
+    xp = [p_ for p_ in ki.all_params if 'exact' in p_]
+    rp = [p_ for p_ in ki.all_params if p_ in ('r', 'radius', 'rad')]
+    if not xp or not rp:
+        raise AnalysisError('anchor vanished: parameters of integral_i2_i3 (%s)' % (ki.all_params,))
+    n_rk = 0
+    from ..model import parent as _parent
+    for st_ in walk_no_nested(ki.node):
+        if not isinstance(st_, (ast.Assign, ast.AugAssign)):
+            continue
+        if not any(isinstance(c_, ast.Call) and (dotted(c_.func) or '').split('.')[-1] == 'sqrt' for c_ in ast.walk(st_.value)):
+            continue
+        nid_ = kfl.node_id_of(st_)
+        if ('param', rp[0]) not in kfl.roots(st_.value, nid_):
+            continue
+        # (the statement that updates the distance itself: its target is a name first bound to a norm; the
+        # exact-kernel correction under its own mask is a different matter)
+        tg_ = st_.targets[0] if isinstance(st_, ast.Assign) else st_.target
+        while isinstance(tg_, ast.Subscript):
+            tg_ = tg_.value
+        if not (isinstance(tg_, ast.Name) and any(
+                isinstance(a_, ast.Assign) and any(isinstance(n_, ast.Name) and n_.id == tg_.id for t_ in a_.targets for n_ in ast.walk(t_))
+                and 'linalg.norm' in norm(a_.value) for a_ in walk_no_nested(ki.node))):
+            continue
+        n_rk += 1
+        guards_ = []
+        p_, ch_ = _parent(st_), st_
+        while p_ is not None and p_ is not ki.node:
+            if isinstance(p_, ast.If):
+                guards_.append(p_)
+            ch_, p_ = p_, _parent(p_)
+        bad_ = [g_ for g_ in guards_ if ('param', xp[0]) in kfl.roots(g_.test, kfl.node_id_of(g_))]
+        ck.ob('R-DEP.reduced-kernel', '%s|%s' % (ki.qual, norm(st_)[:50]), not bad_, ki.loc(st_),
+              'the radius term is added unconditionally / under tests on the radius only' if not bad_ else
+              '`%s` runs only under `%s`, which depends on the exact-kernel flags of the batch: a thick element in a batch '
+              'without exact-kernel elements is integrated with the thin-wire distance' % (norm(st_)[:50], norm(bad_[0].test)[:40]))
+    ck.floor('statements adding the radius term to the distance', n_rk, 1)
     # the length every kernel integral is scaled with is the distance of the segment's own end points
     ck.rule('R-OWN.segment-length', 'Segment.seg_len is set from the end points of the segment (its constructor); the only other writer is the equal segmentation of a straight wire')
     from ..rules import self_closure
